@@ -3,7 +3,7 @@ PROP = dict(
     legs=[
         dict(driver="crash", quick=24, thorough=600, shard=12, noshrink=True,
              monitors=["nothing_stranded_after_restart (every remaining row is crawled and deleted in run 2)",
-                       "finished_implies_captured (acknowledged captures of deleted rows are complete records on disk)",
+                       "finished_implies_captured (acknowledged captures of deleted rows are complete records on disk; every deleted row whose URL the origin answers has a response record)",
                        "refetched_after_restart (rows not yet pre-processed in run 1)",
                        "refetched_after_restart_even_if_preprocessed",
                        "warc_readable_up_to_last_complete_record",
